@@ -22,7 +22,10 @@ const (
 	clientConnStateDisconnected
 )
 
-var errManagerClosed = errors.New("sio: manager was closed while it was connecting")
+var (
+	errManagerClosed   = errors.New("sio: manager was closed while it was connecting")
+	errConnectionEnded = errors.New("sio: connection ended while it was being set up")
+)
 
 // allowConnection undoes the effect of `Close`. It is called when a connection is requested
 // (`Manager.Open`, `ClientSocket.Connect`), not when the attempt starts: the attempt is made on
@@ -69,6 +72,8 @@ func (m *Manager) connect(recursed bool) (err error) {
 	var (
 		active   = true
 		activeMu sync.Mutex
+		// Held while the end of this connection is being handled (`onClose`).
+		closingMu sync.Mutex
 	)
 	callbacks := eio.Callbacks{
 		OnPacket: func(packets ...*parser.Packet) {
@@ -91,11 +96,15 @@ func (m *Manager) connect(recursed bool) (err error) {
 			m.onError(err)
 		},
 		OnClose: func(reason eio.Reason, err error) {
+			closingMu.Lock()
+			defer closingMu.Unlock()
 			activeMu.Lock()
 			if !active {
 				activeMu.Unlock()
 				return
 			}
+			// The connection is over (it might not even be set up yet, see below).
+			active = false
 			activeMu.Unlock()
 			m.onClose(reason, err)
 		},
@@ -127,9 +136,24 @@ func (m *Manager) connect(recursed bool) (err error) {
 		return errManagerClosed
 	}
 
+	// The connection can end before it is set up here (`Dial` has not returned yet, or this
+	// goroutine was slow). Its end is reported then (`onClose`): it must not become the current
+	// connection, in the state connected, afterwards. `OnClose` waits for `activeMu`: if the
+	// connection ends later, the state is set there after it is set here.
+	activeMu.Lock()
+	if !active {
+		activeMu.Unlock()
+		m.skipReconnectMu.RUnlock()
+		// The next attempt starts when this one returns. The end of this connection
+		// must be dealt with by then: what `onClose` cleans up is the current connection.
+		closingMu.Lock()
+		closingMu.Unlock()
+		return errConnectionEnded
+	}
 	m.stateMu.Lock()
 	m.state = clientConnStateConnected
 	m.stateMu.Unlock()
+	activeMu.Unlock()
 	m.eio = _eio
 	m.resetParser()
 	m.closePacketQueue(m.eioPacketQueue)
